@@ -1,8 +1,286 @@
-import Aiorpcx.C16.Model
+import Aiorpcx.C17.Meets
 import Aiorpcx.Facts.C17
+/-!
+# C17 — the SOCKS handshake outcome depends only on the reply bytes; never over-reads
+
+Model (`C16/Model.lean`, mirrors `socks.py`): `handshake oracle client sock` is
+`SOCKSProxy._handshake` driving a protocol object over a socket whose remaining reply bytes are
+`sock.stream`; `oracle i` proposes how many bytes the `i`-th `sock_recv` returns (clamped to
+`[1, min requested available]`, `b''` when the stream is exhausted), so the theorems below,
+quantified over **every** oracle, cover every segmentation of the reply stream including one
+byte at a time and EOF at every offset.  SPEC: `C17/Spec.lean`, the reply grammar written from
+the SOCKS4 protocol note and RFC 1928 / RFC 1929.  No bound on stream length anywhere.
+-/
 namespace Aiorpcx.C17
 open Aiorpcx.Socks
 
-theorem placeholder17 : True := trivial
+/-- methods a SOCKS5 object offers (`SOCKS5._authentication`) -/
+def methodsOf (creds : Bool) : List UInt8 := if creds then [0, 2] else [0]
+
+/-- configurations the theorems range over: any SOCKS5 object (`dst`, `authBytes` arbitrary,
+    methods `[0]` or `[0, 2]`), and any SOCKS4 / SOCKS4a object whose request could be built
+    (`socks4Start` succeeded: destination and user id have a UTF-8 form) -/
+inductive GoodCfg : Cfg → Prop where
+  | s5 (dst ab : Bytes) (creds : Bool) : GoodCfg (.s5 dst ab (methodsOf creds))
+  | s4 (h : Host) (port : Nat) (a : Auth) (b : Bytes) (hs : socks4Start h port a = .ok b) :
+      GoodCfg (.s4 h port a)
+
+/-- what the replies mean for this configuration, by the independent reply grammar -/
+def verdictFor : Cfg → Bytes → Spec.Verdict
+  | .s4 .., s => Spec.verdict4 s
+  | .s5 _ _ ms, s => Spec.verdict5 (ms.contains 2) s
+
+/-! ## segmentation is irrelevant -/
+
+/-- **Segmentation independence.**  For any client state, any reply stream and any two
+    segmentation oracles (and recv counters) the handshake has the same outcome, sends the
+    same messages and leaves exactly the same bytes unread — hence consumes the same number of
+    bytes. -/
+theorem segmentation_irrelevant (o₁ o₂ : Nat → Nat) (c : Client) (stream : Bytes) (i₁ i₂ : Nat) :
+    refOf (handshake o₁ c ⟨stream, i₁⟩) = refOf (handshake o₂ c ⟨stream, i₂⟩) := by
+  rw [handshake_ref, handshake_ref]
+
+/-- two genuinely different segmentations of the same 13 reply bytes: 12 `recv` calls of one
+    byte each vs 3 calls (2, 5, 5 bytes); the last byte is application data -/
+example :
+    handshake (fun _ => 1) (Client.init (.s5 [1, 8, 8, 8, 8, 0, 53] [] [0]))
+      ⟨[5, 0, 5, 0, 0, 1, 1, 2, 3, 4, 0, 80, 0x16], 0⟩ =
+    ⟨none, [[5, 1, 0], [5, 1, 0, 1, 8, 8, 8, 8, 0, 53]], [0x16],
+     [(2, 1), (1, 1), (5, 1), (4, 1), (3, 1), (2, 1), (1, 1), (5, 1), (4, 1), (3, 1), (2, 1),
+      (1, 1)]⟩ ∧
+    handshake (fun _ => 1000) (Client.init (.s5 [1, 8, 8, 8, 8, 0, 53] [] [0]))
+      ⟨[5, 0, 5, 0, 0, 1, 1, 2, 3, 4, 0, 80, 0x16], 0⟩ =
+    ⟨none, [[5, 1, 0], [5, 1, 0, 1, 8, 8, 8, 8, 0, 53]], [0x16], [(2, 2), (5, 5), (5, 5)]⟩ :=
+  ⟨handshakeFuel_sound _ 40 _ _ _ (by decide +kernel),
+   handshakeFuel_sound _ 40 _ _ _ (by decide +kernel)⟩
+
+/-! ## the outcome is what the replies mean -/
+
+theorem meets_first5 (dst ab : Bytes) (creds : Bool) (s : Bytes) :
+    Meets s (runRef ⟨.s5 dst ab (methodsOf creds), .first5, []⟩ s) (Spec.verdict5 creds s) := by
+  rw [runRef_first5]
+  match s with
+  | [] | [_] => simp [Spec.verdict5, Meets, eofRun]
+  | v :: m :: s1 =>
+    simp only [Spec.verdict5, Cfg.methods]
+    by_cases hv : v = 5
+    · subst hv
+      simp only [ne_eq, not_true_eq_false, if_false]
+      by_cases h0 : m = 0
+      · subst h0
+        have hm : (0 : UInt8) ∈ methodsOf creds := by cases creds <;> simp [methodsOf]
+        simp only [hm, not_true_eq_false, if_false, show ¬ ((0 : UInt8) = 2) by decide, if_true]
+        rw [meets_consMsg]
+        exact meets_shift2 _ _ _ _ _ (meets_connect _ s1)
+      · by_cases h2 : m = 2 ∧ creds = true
+        · obtain ⟨rfl, rfl⟩ := h2
+          have hm : (2 : UInt8) ∈ methodsOf true := by simp [methodsOf]
+          simp only [hm, not_true_eq_false, if_false, if_true, h0, and_self]
+          rw [meets_consMsg, runRef_auth]
+          match s1 with
+          | [] | [_] => simp [Meets, eofRun]
+          | av :: st :: s2 =>
+            simp only
+            by_cases ha : av = 1
+            · by_cases hs : st = 0
+              · subst ha hs
+                simp only [ne_eq, not_true_eq_false, if_false]
+                rw [meets_consMsg]
+                exact meets_shift4 _ _ _ _ _ _ _ (meets_connect _ s2)
+              · simp [ha, hs, Meets]
+            · simp [ha, Meets]
+        · have hm : m ∉ methodsOf creds := by
+            cases creds
+            · simp [methodsOf, h0]
+            · simp only [methodsOf, if_true, List.mem_cons, List.not_mem_nil, or_false]
+              rintro (h | h)
+              · exact h0 h
+              · exact h2 ⟨h, rfl⟩
+          simp [hm, h0, h2, Meets]
+    · simp [hv, Meets]
+
+theorem methodsOf_contains (creds : Bool) : (methodsOf creds).contains 2 = creds := by
+  cases creds <;> decide
+
+/-- the reference run of a good configuration meets the verdict of the reply grammar -/
+theorem meets_runRef {cfg : Cfg} (hg : GoodCfg cfg) (stream : Bytes) :
+    Meets stream (runRef (Client.init cfg) stream) (verdictFor cfg stream) := by
+  cases hg with
+  | s5 dst ab creds =>
+    rw [runRef_start_s5, meets_consMsg]
+    simp only [verdictFor, methodsOf_contains]
+    exact meets_first5 dst ab creds stream
+  | s4 h port a b hs =>
+    rw [runRef_start_s4 h port a b stream hs, meets_consMsg]
+    exact meets_first4 _ stream
+
+/-- **Outcome = meaning of the replies**, for every segmentation.  With `v` the verdict of the
+    independent reply grammar on the stream:
+    * `granted n` (the stream starts with a complete well-formed granting reply sequence of
+      `n` bytes): the handshake returns normally and exactly the bytes after those `n` are left
+      on the socket;
+    * `refused` (well-formed refusal): `SOCKSFailure`;
+    * `bad` (malformed byte, or the stream ends before the replies are complete):
+      `SOCKSProtocolError`;
+    * `refusedCut` (an RFC 1928 reply header carrying a refusal code, cut short by EOF):
+      `SOCKSFailure` or `SOCKSProtocolError`. -/
+theorem outcome_spec {cfg : Cfg} (hg : GoodCfg cfg) (oracle : Nat → Nat) (stream : Bytes)
+    (idx : Nat) :
+    Meets stream (refOf (handshake oracle (Client.init cfg) ⟨stream, idx⟩))
+      (verdictFor cfg stream) := by
+  rw [handshake_ref]
+  exact meets_runRef hg stream
+
+/-- **Success iff granted**: the handshake reports success exactly when the replies are well
+    formed and grant the request. -/
+theorem success_iff_granted {cfg : Cfg} (hg : GoodCfg cfg) (oracle : Nat → Nat) (stream : Bytes)
+    (idx : Nat) :
+    (handshake oracle (Client.init cfg) ⟨stream, idx⟩).outcome = none ↔
+      ∃ n, verdictFor cfg stream = .granted n := by
+  have h := outcome_spec hg oracle stream idx
+  cases hv : verdictFor cfg stream with
+  | granted n => rw [hv] at h; exact ⟨fun _ => ⟨n, rfl⟩, fun _ => h.1⟩
+  | refused => rw [hv] at h; simp only [Meets, refOf] at h; simp [h]
+  | refusedCut => rw [hv] at h; simp only [Meets, refOf] at h; rcases h with h | h <;> simp [h]
+  | bad => rw [hv] at h; simp only [Meets, refOf] at h; simp [h]
+
+/-- **No other exception**: whatever the proxy sends and however it is segmented, the
+    handshake returns, raises `SOCKSFailure` or raises `SOCKSProtocolError`. -/
+theorem no_other_exception {cfg : Cfg} (hg : GoodCfg cfg) (oracle : Nat → Nat) (stream : Bytes)
+    (idx : Nat) :
+    let o := (handshake oracle (Client.init cfg) ⟨stream, idx⟩).outcome
+    o = none ∨ o = some .socksFailure ∨ o = some .socksProtocolError := by
+  have h := outcome_spec hg oracle stream idx
+  cases hv : verdictFor cfg stream with
+  | granted n => rw [hv] at h; exact Or.inl h.1
+  | refused => rw [hv] at h; exact Or.inr (Or.inl h)
+  | refusedCut => rw [hv] at h; rcases h with h | h
+                  · exact Or.inr (Or.inl h)
+                  · exact Or.inr (Or.inr h)
+  | bad => rw [hv] at h; exact Or.inr (Or.inr h)
+
+/-- the model is not total by accident: a SOCKS4 object whose user id is a lone surrogate lets
+    `UnicodeEncodeError` out of the handshake (outside `GoodCfg`) -/
+example : handshake (fun _ => 1)
+      (Client.init (.s4 (.ipv4 (vec4 1 2 3 4)) 80 (some ([0xD800], [])))) ⟨[0, 90], 0⟩
+    = ⟨some .unicodeEncodeError, [], [0, 90], []⟩ :=
+  handshakeFuel_sound _ 5 _ _ _ (by decide +kernel)
+
+/-! ## exactly the handshake's bytes are taken from the socket -/
+
+/-- **Exact consumption.**  If the stream is a granting reply sequence `seq` followed by
+    anything at all (`trailing`: whatever the proxy relays next), then for every segmentation
+    the handshake succeeds and `trailing` is left on the socket untouched. -/
+theorem exact_consumption {cfg : Cfg} (hg : GoodCfg cfg) (oracle : Nat → Nat)
+    (seq trailing : Bytes) (idx : Nat)
+    (hv : verdictFor cfg (seq ++ trailing) = .granted seq.length) :
+    let r := handshake oracle (Client.init cfg) ⟨seq ++ trailing, idx⟩
+    r.outcome = none ∧ r.unread = trailing := by
+  have h := outcome_spec hg oracle (seq ++ trailing) idx
+  rw [hv] at h
+  exact ⟨h.1, by simpa [refOf] using h.2.2⟩
+
+/-- the verdict looks at nothing beyond the granting sequence: bytes after it do not matter -/
+theorem verdict4_granted_len (s : Bytes) (n : Nat) (h : Spec.verdict4 s = .granted n) : n = 8 := by
+  match s with
+  | [] | [_] | [_, _] | [_, _, _] | [_, _, _, _] | [_, _, _, _, _] | [_, _, _, _, _, _]
+  | [_, _, _, _, _, _, _] => simp [Spec.verdict4] at h
+  | vn :: cd :: a :: b :: c :: d :: e :: f :: rest =>
+    simp only [Spec.verdict4] at h
+    split at h
+    · simp at h
+    · split at h <;> simp at h
+      exact h.symm
+
+theorem connectReply_granted_len (s : Bytes) (n : Nat) (h : Spec.connectReply s = .granted n) :
+    ∃ atyp after addr, s.drop 3 = atyp :: after ∧ Spec.addrFieldLen atyp after = some addr ∧
+      n = 4 + addr + 2 ∧
+      (addr = 4 ∨ addr = 16 ∨ ∃ l rest, after = l :: rest ∧ addr = 1 + l.toNat) := by
+  match s with
+  | [] | [_] | [_, _] | [_, _, _] => simp [Spec.connectReply] at h
+  | ver :: rep :: rsv :: atyp :: after =>
+    simp only [Spec.connectReply] at h
+    split at h
+    · simp at h
+    · split at h
+      · simp at h
+      · split at h
+        · rename_i addr ha
+          split at h
+          · split at h
+            · simp at h
+              refine ⟨atyp, after, addr, by simp, ha, h.symm, ?_⟩
+              unfold Spec.addrFieldLen at ha
+              split at ha
+              · simp at ha; exact Or.inl ha.symm
+              · split at ha
+                · simp at ha; exact Or.inr (Or.inl ha.symm)
+                · split at ha
+                  · cases after with
+                    | nil => simp at ha
+                    | cons l rest =>
+                      simp at ha
+                      exact Or.inr (Or.inr ⟨l, rest, rfl, ha.symm⟩)
+                  · simp at ha
+            · simp at h
+          · split at h <;> simp at h
+        · split at h <;> simp at h
+
+/-- **Length of a granted handshake**: 8 bytes for SOCKS4/4a; for SOCKS5
+    `2 [+ 2] + 4 + (4 | 1 + len | 16) + 2`. -/
+theorem granted_length {cfg : Cfg} (stream : Bytes) (n : Nat)
+    (h : verdictFor cfg stream = .granted n) :
+    match cfg with
+    | .s4 .. => n = 8
+    | .s5 .. => ∃ auth addr, (auth = 0 ∨ auth = 2) ∧
+        (addr = 4 ∨ addr = 16 ∨ ∃ l : UInt8, addr = 1 + l.toNat) ∧
+        n = 2 + auth + 4 + addr + 2 := by
+  cases cfg with
+  | s4 hh port a => exact verdict4_granted_len stream n h
+  | s5 dst ab ms =>
+    simp only [verdictFor] at h ⊢
+    match stream with
+    | [] | [_] => simp [Spec.verdict5] at h
+    | v :: m :: s1 =>
+      simp only [Spec.verdict5] at h
+      split at h
+      · simp at h
+      · split at h
+        · cases hc : Spec.connectReply s1 with
+          | granted k =>
+            rw [hc] at h
+            simp [Spec.Verdict.shift] at h
+            obtain ⟨_, _, addr, _, _, hk, hcase⟩ := connectReply_granted_len s1 k hc
+            refine ⟨0, addr, Or.inl rfl, ?_, by omega⟩
+            rcases hcase with h1 | h1 | ⟨l, _, _, h1⟩
+            · exact Or.inl h1
+            · exact Or.inr (Or.inl h1)
+            · exact Or.inr (Or.inr ⟨l, h1⟩)
+          | refused => rw [hc] at h; simp [Spec.Verdict.shift] at h
+          | refusedCut => rw [hc] at h; simp [Spec.Verdict.shift] at h
+          | bad => rw [hc] at h; simp [Spec.Verdict.shift] at h
+        · split at h
+          · match s1 with
+            | [] | [_] => simp at h
+            | av :: st :: s2 =>
+              simp only at h
+              split at h
+              · simp at h
+              · split at h
+                · simp at h
+                · cases hc : Spec.connectReply s2 with
+                  | granted k =>
+                    rw [hc] at h
+                    simp [Spec.Verdict.shift] at h
+                    obtain ⟨_, _, addr, _, _, hk, hcase⟩ := connectReply_granted_len s2 k hc
+                    refine ⟨2, addr, Or.inr rfl, ?_, by omega⟩
+                    rcases hcase with h1 | h1 | ⟨l, _, _, h1⟩
+                    · exact Or.inl h1
+                    · exact Or.inr (Or.inl h1)
+                    · exact Or.inr (Or.inr ⟨l, h1⟩)
+                  | refused => rw [hc] at h; simp [Spec.Verdict.shift] at h
+                  | refusedCut => rw [hc] at h; simp [Spec.Verdict.shift] at h
+                  | bad => rw [hc] at h; simp [Spec.Verdict.shift] at h
+          · simp at h
 
 end Aiorpcx.C17
